@@ -1009,7 +1009,23 @@ static int tuple_cmp(const skey_t *a, const skey_t *b) {
  * argument, and an in-place add that arrives at the value */
 static unsigned g_c05_producer;
 static int c05_encode(uint8_t *e, uint64_t v) {
-    switch (g_c05_producer % 3) {
+    switch (g_c05_producer % 4) {
+    case 3: { /* an in-place add that arrives at the value from above, usually from a wider encoding */
+        uint64_t h = (v ^ (v >> 29)) * 0x9E3779B97F4A7C15ULL + g_c05_producer;
+        uint64_t d = 1 + ((h >> 8) >> (h % 56)); /* log-uniform amounts */
+        if (v <= (uint64_t)INT64_MAX - 300 && d <= (uint64_t)INT64_MAX - 300 - v) {
+            bool grow = (h >> 7) & 1;
+            g_ctx = grow ? "varintTaggedAddGrow" : "varintTaggedAddNoGrow";
+            varintTaggedPut64(e, v + d);
+            STAT_INC("c05_keys_reached_by_subtracting");
+            if (varintTaggedLen(v + d) > varintTaggedLen(v)) STAT_INC("c05_keys_reached_by_subtracting_across_a_width_boundary");
+            return grow ? (int)varintTaggedAddGrow(e, -(int64_t)d) : (int)varintTaggedAddNoGrow(e, -(int64_t)d);
+        }
+    }
+    /* fall through */
+    case 0:
+        g_ctx = "varintTaggedPut64";
+        return (int)varintTaggedPut64(e, v);
     case 1: {
         varintWidth w = varintTaggedLenQuick(v | g_zero);
         g_ctx = "varintTaggedPut64FixedWidthQuick_";
@@ -1044,6 +1060,13 @@ static void c05_pair(uint64_t a, uint64_t b, const char *gen) {
     }
     if (a == b && (la != lb || memcmp(ea, eb, (size_t)la))) {
         viol("C05:tagged.memcmp:equal-values-different-bytes", "a=%" PRIu64, a);
+    }
+    if (g_c05_producer % 4) { /* the same value from the plain encoder */
+        uint8_t pa[9];
+        int lp = varintTaggedPut64(pa, a);
+        if (lp != la || memcmp(pa, ea, (size_t)lp)) {
+            viol("C05:tagged.memcmp:equal-values-different-bytes", "a=%" PRIu64 " from %s: %s, from varintTaggedPut64: %s", a, g_ctx, hexs(ea, (size_t)(la > 0 && la <= 9 ? la : 0)), hexs(pa, (size_t)lp));
+        }
     }
     if (la != lb || (m > 1 && memcmp(ea, eb, (size_t)m - 1))) {
         STAT_INC("c05_nontrivial_pairs");
